@@ -230,3 +230,99 @@ func ReadMBR(d Dev) ([]MBREntry, error) {
 	}
 	return out, nil
 }
+
+// GPTCopyCRCValid checks only what the words "CRC-valid" mean: the header at lba carries a
+// correct CRC over its stated header size and its entry array (count*entrySize bytes at the
+// stated LBA, inside the device) matches the array CRC. It returns the entries decoded with a
+// 128-byte layout at the stated stride. No plausibility limits beyond the device bounds.
+func GPTCopyCRCValid(d Dev, lss int64, lba uint64) ([]GPTEntry, *GPTHeader, bool) {
+	off := int64(lba) * lss
+	if lba > 1<<62/uint64(lss) || off < 0 || off+lss > d.Size() {
+		return nil, nil, false
+	}
+	b := d.Peek(off, lss)
+	if string(b[0:8]) != "EFI PART" {
+		return nil, nil, false
+	}
+	hs := binary.LittleEndian.Uint32(b[12:16])
+	if hs < 92 || int64(hs) > lss {
+		return nil, nil, false
+	}
+	c := append([]byte(nil), b[:hs]...)
+	c[16], c[17], c[18], c[19] = 0, 0, 0, 0
+	if crc32.ChecksumIEEE(c) != binary.LittleEndian.Uint32(b[16:20]) {
+		return nil, nil, false
+	}
+	h := &GPTHeader{HeaderSize: hs}
+	h.MyLBA = binary.LittleEndian.Uint64(b[24:32])
+	h.AltLBA = binary.LittleEndian.Uint64(b[32:40])
+	h.FirstUsable = binary.LittleEndian.Uint64(b[40:48])
+	h.LastUsable = binary.LittleEndian.Uint64(b[48:56])
+	h.DiskGUID = guidText(b[56:72])
+	h.ArrayLBA = binary.LittleEndian.Uint64(b[72:80])
+	h.Count = binary.LittleEndian.Uint32(b[80:84])
+	h.EntrySize = binary.LittleEndian.Uint32(b[84:88])
+	h.ArrayCRC = binary.LittleEndian.Uint32(b[88:92])
+	n := int64(h.Count) * int64(h.EntrySize)
+	if h.ArrayLBA > uint64(d.Size()/lss) {
+		return nil, h, false
+	}
+	aoff := int64(h.ArrayLBA) * lss
+	if n < 0 || aoff < 0 || aoff+n > d.Size() || n > 1<<30 {
+		return nil, h, false
+	}
+	ab := d.Peek(aoff, n)
+	if crc32.ChecksumIEEE(ab) != h.ArrayCRC {
+		return nil, h, false
+	}
+	var out []GPTEntry
+	if h.EntrySize < 128 {
+		return nil, h, true
+	}
+	for i := 0; i < int(h.Count); i++ {
+		e := ab[i*int(h.EntrySize) : i*int(h.EntrySize)+128]
+		allz := true
+		for _, x := range e[:16] {
+			if x != 0 {
+				allz = false
+			}
+		}
+		if allz {
+			continue
+		}
+		ge := GPTEntry{Index: i + 1, TypeGUID: guidText(e[0:16]), GUID: guidText(e[16:32]),
+			First: binary.LittleEndian.Uint64(e[32:40]), Last: binary.LittleEndian.Uint64(e[40:48]),
+			Attributes: binary.LittleEndian.Uint64(e[48:56])}
+		for j := 56; j+2 <= 128; j += 2 {
+			u := binary.LittleEndian.Uint16(e[j:])
+			if u == 0 {
+				break
+			}
+			ge.NameUnits = append(ge.NameUnits, u)
+		}
+		out = append(out, ge)
+	}
+	return out, h, true
+}
+
+// FixGPTHeaderCRC recomputes the header CRC of the header at lba (harness use: corruptions "with CRC fixed").
+func FixGPTHeaderCRC(peek func(off, n int64) []byte, poke func(off int64, b []byte), lss int64, lba int64) {
+	b := peek(lba*lss, 92)
+	b[16], b[17], b[18], b[19] = 0, 0, 0, 0
+	var c [4]byte
+	binary.LittleEndian.PutUint32(c[:], crc32.ChecksumIEEE(b))
+	poke(lba*lss+16, c[:])
+}
+
+// FixGPTArrayCRC recomputes the array CRC field of the header at lba from the array it points to (bounded).
+func FixGPTArrayCRC(peek func(off, n int64) []byte, poke func(off int64, b []byte), devSize, lss int64, lba int64) {
+	b := peek(lba*lss, 92)
+	alba := int64(binary.LittleEndian.Uint64(b[72:80]))
+	n := int64(binary.LittleEndian.Uint32(b[80:84])) * int64(binary.LittleEndian.Uint32(b[84:88]))
+	if alba < 0 || alba > devSize/lss || n < 0 || n > 1<<24 || alba*lss+n > devSize {
+		return
+	}
+	var c [4]byte
+	binary.LittleEndian.PutUint32(c[:], crc32.ChecksumIEEE(peek(alba*lss, n)))
+	poke(lba*lss+88, c[:])
+}
